@@ -374,7 +374,11 @@ def run_query(ctx, q, tag="", extra_defs=(), mut_overlay=None, want_replay=True,
         # a per-assertion status other than SUCCESS/FAILURE (CBMC prints ERROR/UNKNOWN when the
         # SAT solver ran out of memory) is "no verdict", never a pass
         undecided = [r for r in results if r.get("status") not in ("SUCCESS", "FAILURE")]
-        if undecided:
+        # ... unless a property / memory-safety assertion was definitely violated in the same run: a FAILURE is
+        # a verdict on its own (CBMC reports UNKNOWN for checks located after a failed memory-safety check)
+        definite = [r for r in results if r.get("status") == "FAILURE" and not r.get("description", "").startswith("WITNESS")
+                    and "unwinding assertion" not in r.get("description", "") and "recursion unwinding" not in r.get("description", "")]
+        if undecided and not definite:
             res["error"] = "no verdict: %d assertion(s) with status %s (solver out of memory?) %s" % (
                 len(undecided), undecided[0].get("status"), "; ".join(errors)[-300:])
             return res
